@@ -42,7 +42,9 @@ PERSP = ['pexp', 'plog']
 OPS = ['mulpos', 'mulneg', 'mul0', 'mulnp', 'neg', 'addk', 'subk', 'ksub', 'addaff', 'subaff',
        'affsub', 'addnd']
 BILINEAR = ['dec*dec', 'dec@dec', 'rand*rand', 'rule*rand', 'adaptive*rand', 'cvx*cvx',
-            'cvx*aff', 'cvx@aff', 'rand@rand']
+            'cvx*aff', 'cvx@aff', 'rand@rand', '(rule+static)*rand', '(rule-static)@rand',
+            'rand*(2*rule+static-3)', 'E((rule+static)*rand)', '(static+rule)*rand',
+            'norm(rule+static)']
 
 
 def gen_case(rng, idx, tier):
@@ -427,6 +429,26 @@ def run_bilinear(spec, ctx):
             else:
                 x.adapt(z)
                 e = x @ z
+        elif which in ('(rule+static)*rand', '(rule-static)@rand', 'rand*(2*rule+static-3)',
+                       'E((rule+static)*rand)', '(static+rule)*rand', 'norm(rule+static)'):
+            if front == 'ro':
+                r = m.ldr(3)
+                r.adapt(z)
+            else:
+                r = y
+                r.adapt(z)
+            if which == '(rule+static)*rand':
+                e = ((r + x) * z).sum()
+            elif which == '(static+rule)*rand':
+                e = ((x + r) * z).sum()
+            elif which == '(rule-static)@rand':
+                e = (r - x) @ z
+            elif which == 'rand*(2*rule+static-3)':
+                e = (z * (2 * r + x - 3)).sum()
+            elif which == 'norm(rule+static)':
+                e = rso.norm(r + x)
+            else:
+                e = rso.E(((r + x) * z).sum()) if front == 'dro' else ((r + x) * z).sum()
         elif which == 'cvx*cvx':
             e = rso.norm(x) * rso.norm(y)
         elif which == 'cvx*aff':
